@@ -287,7 +287,6 @@ func CheckAlias(r *Run, g string, s *AliasSpec) map[string]any {
 	return map[string]any{"type": s.Prefix, "methods": strings.Join(st.Methods, " "), "not_enumerated": strings.Join(st.Skipped, " "), "alias_patterns": st.Patterns, "calls": st.Calls}
 }
 
-
 var bigIntMenu = []*big.Int{big.NewInt(5), big.NewInt(-3), new(big.Int).Lsh(big.NewInt(1), 70), new(big.Int).Neg(new(big.Int).Add(new(big.Int).Lsh(big.NewInt(1), 130), big.NewInt(9))), new(big.Int)}
 
 // secondaryAlias: pointer operands of a type other than the receiver's that occur at two or more positions
